@@ -105,7 +105,8 @@ def ops_match(parser, operands, registers, memzone_manager):
     """the operand pattern of an instruction or macro variant accepts this operand list (the shared matching rules)"""
 
 
-contract(OPP + '.find_matching_operands', props=['C10'], assumed=True, returns='MatchedOperandSet?',
+contract(OPP + '.find_matching_operands', name='abs:OperandParser.find_matching_operands', props=['C10'], assumed=True,
+         returns='MatchedOperandSet?',
          reason='the operand matcher shared by instruction and macro variants (its search order is under C13 contracts); '
                 'here only: deterministic, effect-free, None exactly when the pattern does not accept the operands',
          may_raise={'SystemExit': 'True'},
